@@ -270,6 +270,49 @@ theorem stateAt_inv (step : Nat → σ → β → σ) (P : Nat → σ → Prop) 
   rw [hlen] at this
   simpa using this
 
+/-- state BEFORE step `k` of a loop started at index 0 -/
+def stateBefore (step : Nat → σ → β → σ) (xs : List β) (s0 : σ) : Nat → σ
+  | 0 => s0
+  | k + 1 => stateAt step xs s0 k
+
+theorem stateAt_eq_step_before (step : Nat → σ → β → σ) (xs : List β) (s0 : σ) (k : Nat)
+    (hk : k < xs.length) : stateAt step xs s0 k = step k (stateBefore step xs s0 k) (xs[k]'hk) := by
+  cases k with
+  | zero => exact stateAt_zero step xs s0 hk
+  | succ k => exact stateAt_succ step xs s0 k hk
+
+/-- **every saved row was written from a loop state**: if each step either leaves the buffer alone or
+pushes `mk (new state) i x`, then every row of the final buffer is `mk (stateAt j) j xs[j]` for some
+step `j` – the published rows are functions of the very states the loop went through. -/
+theorem saved_rows_from_states {ρ : Type u} (step : Nat → σ → β → σ) (buf : σ → Array ρ)
+    (mk : σ → Nat → β → ρ)
+    (hstep : ∀ i s x, buf (step i s x) = buf s ∨ buf (step i s x) = (buf s).push (mk (step i s x) i x))
+    (xs : List β) (s0 : σ) (h0 : buf s0 = #[]) :
+    ∀ r ∈ (buf (iterIdx step xs 0 s0)).toList,
+      ∃ j, ∃ hj : j < xs.length, r = mk (stateAt step xs s0 j) j (xs[j]'hj) := by
+  have key := iterIdx_inv step
+    (fun i s => s = stateBefore step xs s0 i ∧
+      ∀ r ∈ (buf s).toList, ∃ j, ∃ hj : j < xs.length, j < i ∧ r = mk (stateAt step xs s0 j) j (xs[j]'hj))
+    xs 0 s0 ⟨rfl, by simp [h0]⟩ ?_
+  · intro r hr
+    obtain ⟨j, hj, _, e⟩ := key.2 r hr
+    exact ⟨j, hj, e⟩
+  · intro k hk s ⟨hs, hrows⟩
+    simp only [Nat.zero_add] at hs hrows ⊢
+    have hnew : step k s (xs[k]'hk) = stateAt step xs s0 k := by
+      rw [stateAt_eq_step_before step xs s0 k hk, hs]
+    refine ⟨by rw [hnew]; rfl, ?_⟩
+    intro r hr
+    rcases hstep k s (xs[k]'hk) with hb | hb
+    · rw [hb] at hr
+      obtain ⟨j, hj, hjk, e⟩ := hrows r hr
+      exact ⟨j, hj, by omega, e⟩
+    · rw [hb, Array.toList_push, List.mem_append, List.mem_singleton] at hr
+      rcases hr with hr | hr
+      · obtain ⟨j, hj, hjk, e⟩ := hrows r hr
+        exact ⟨j, hj, by omega, e⟩
+      · exact ⟨k, hk, by omega, by rw [hr, hnew]⟩
+
 /-! ### `firstHit` -/
 
 /-- A fold whose states carry a "set once" index (`get`), set at the first step whose new
